@@ -18,7 +18,7 @@ EXPLANATION = (
     "with adversarial renamings."
 )
 TRUSTED = ["pyvc translator", "z3", "A_eq"]
-ASSUMPTIONS = ["extractor side of alias handling (add_read with alias, CTE look-up, sub-query column tracing) is covered by the bounded run only"]
+ASSUMPTIONS = ["window items with ORDER BY ... DESC in multi-relation scopes are skipped under non-validating (known finding D33 of C02)", "extractor side of alias handling (add_read with alias, CTE look-up, sub-query column tracing) is covered by the bounded run only"]
 REPLAYERS = {("", ""): {"script": "replay/c08_native.py", "args": []}}
 BOUNDED = [
     {
